@@ -196,7 +196,13 @@ def plan(prop, tier):
             return [PairJob("c19_cc", IR, IR, ops, 2, 2, targets=mm, vals_a="{1,2}", vals_b="{1,2}"),
                     PairJob("c19_lc", IRK, IR, ops, n, 1 if q else 2, targets=mm, vals_a="{1,2}", vals_b="{1,2}"),
                     PairJob("c19_cl", IR, IRK, ops, 1 if q else 2, n, targets=mm, vals_a="{1,2}", vals_b="{1,2}"),
-                    PairJob("c19_sets", IRK, IR, ops, 2, 2 if q else 3, targets=ss, vals_a="{1}", vals_b="{1}")]
+                    PairJob("c19_sets", IRK, IR, ops, 2, 2 if q else 3, targets=ss, vals_a="{1}", vals_b="{1}"),
+                    # representations that differ only in host bits are different keys for the key type's own equality
+                    PairJob("c19_hosts", IR, IR, ops, 2, 2, hosts='{"0","2"}', nodes_a=3, nodes_b=3, timeout=300,
+                            targets=[(t, "map-map", "plain") for t in (["u32", "Ipv4Net"] if q else [x for x in ptypes if "Cidr" not in x])]
+                                    + [("u32", "set-set", "plain")], vals_a="{1}", vals_b="{1}"),
+                    TableJob("c19_single", MUT + ["CloneCheck", "Collect", "Serde"], ["CloneCheck", "Collect", "Serde"],
+                             targets=both)]
         return [PairJob(prop.lower() + "_cc", IR, IR, ops, 3, 3, targets=pt),
                 PairJob(prop.lower() + "_lc", IRK, IR, ops, n, 1 if q else 2, targets=pt),
                 PairJob(prop.lower() + "_cl", IR, IRK, ops, 1 if q else 2, n, targets=pt)]
